@@ -116,7 +116,11 @@ func (w *World) persistActions() []Action {
 			}
 			v := b.vbs[vb]
 			if v.copies[r].Persisted < v.high {
-				acts = append(acts, Action{ID: fmt.Sprintf("persist|vb%d|r%d", vb, r), W: c.W.Persist, Do: func() {
+				pw := c.W.Persist
+				if w.slowCopy[[2]int{vb, r}] && pw > 1 {
+					pw = 1 // a replica that was assigned a moment ago builds up slowly
+				}
+				acts = append(acts, Action{ID: fmt.Sprintf("persist|vb%d|r%d", vb, r), W: pw, Do: func() {
 					w.mu.Lock()
 					gap := int(v.high - v.copies[r].Persisted)
 					step := 1 + w.tape.Draw(gap, nil)
@@ -173,7 +177,7 @@ func (s *scRM) Actions(w *World) []Action {
 	acts := w.persistActions()
 	b := w.cl.buckets[c.Bucket]
 	if (c.W.Failover > 0 || s.holeVb >= 0) && s.bumps < 2 && w.ready1() {
-		acts = append(acts, Action{ID: "mapbump", W: 1, Do: func() {
+		acts = append(acts, Action{ID: "mapbump", W: 2, Do: func() {
 			s.bumps++
 			w.mu.Lock()
 			if w.tape.Draw(2, nil) == 0 {
@@ -196,6 +200,10 @@ func (s *scRM) Actions(w *World) []Action {
 					b.vbmap[vb][r] = -1
 				} else if r < c.NNodes {
 					b.vbmap[vb][r] = (vb + r) % c.NNodes
+					if w.slowCopy == nil {
+						w.slowCopy = map[[2]int]bool{}
+					}
+					w.slowCopy[[2]int{vb, r}] = true
 				}
 			}
 			w.mu.Unlock()
